@@ -91,6 +91,13 @@ func verifC10Router(globals int) (*Router, *[]string) {
 	r.GET("/s", tag("s"), pass)
 	r.GET("/d/{id}", tag("d"), pass, pass)
 	r.POST("/p", tag("p"))
+	// a connection upgrade: the handler takes the connection over
+	r.GET("/h", func(c *Context) {
+		if hj, ok := c.Resp.(http.Hijacker); ok {
+			_, _, err := hj.Hijack()
+			log = append(log, "h:"+verifBoolStr(err == nil))
+		}
+	})
 	// a streamed answer: written and flushed, twice
 	r.GET("/f", func(c *Context) {
 		c.WriteString("f1")
@@ -169,7 +176,7 @@ func verifBoolStr(b bool) string {
 
 func verifHarness_C10_history() {
 	globals := verifChoice("globals", 2)
-	reqs := []verifC03Req{{"GET", "/s"}, {"GET", "/d/7"}, {"GET", "/nowhere"}, {"POST", "/s"}, {"POST", "/p"}, {"GET", "/q"}, {"GET", "/c"}, {"GET", "/t"}, {"GET", "/tbad"}, {"GET", "/f"}}
+	reqs := []verifC03Req{{"GET", "/s"}, {"GET", "/d/7"}, {"GET", "/nowhere"}, {"POST", "/s"}, {"POST", "/p"}, {"GET", "/q"}, {"GET", "/c"}, {"GET", "/t"}, {"GET", "/tbad"}, {"GET", "/f"}, {"GET", "/h"}}
 	r, log := verifC10Router(globals)
 	verifC10Kept, verifC10KeptData = nil, nil
 	K := verifParam("K")
@@ -193,7 +200,7 @@ func verifHarness_C10_history() {
 		frec := verifNewWriter()
 		fresh.ServeHTTP(frec, verifRequestQ(q.method, q.path, "page=1&size=10"))
 		verifC10Kept, verifC10KeptData = verifC10Kept[:keptN], verifC10KeptData[:keptN]
-		same := len(got) == len(*flog) && rec.whStatus == frec.whStatus && string(rec.body) == string(frec.body) && rec.flushes == frec.flushes
+		same := len(got) == len(*flog) && rec.whStatus == frec.whStatus && string(rec.body) == string(frec.body) && rec.flushes == frec.flushes && rec.whCalls == frec.whCalls
 		if same {
 			for i := range got {
 				if got[i] != (*flog)[i] {
